@@ -31,3 +31,18 @@ Theorem C19_statement : forall p t t', TInv t -> execute t Ris = Ok t' -> holds_
 Proof. exact C19_holds. Qed.
 Check C19_statement : forall p t t', TInv t -> execute t Ris = Ok t' -> holds_C19 (mkVt p t) Ris (mkVt init_parser t') = true.
 Print Assumptions C19_statement.
+
+From Avt Require Import Gen.AccFns Proofs.BufTie Proofs.ParserFnsTie Proofs.AccTie.
+(** SOURCE TIE BY PROOF (translate/acc2coq.py -> Gen/AccFns.v): the public constructors and accessors are REGENERATED from the Rust source on every run and proved equal to the model's observation functions - the functions through which every theorem of this property reads the terminal *)
+(** Terminal::new, field by field: the power-on state RIS is compared with *)
+Theorem C19_source_terminal_new : forall c r l, g_terminal_new c r (option_map N.to_nat l) =~ okM (1 <=? r) (term_new_gen c r l).
+Proof. exact tie_terminal_new. Qed.
+Check C19_source_terminal_new : forall c r l, g_terminal_new c r (option_map N.to_nat l) =~ okM (1 <=? r) (term_new_gen c r l).
+Print Assumptions C19_source_terminal_new.
+
+(** Vt::cursor_key_app_mode *)
+Theorem C19_source_ckm : forall v, g_vt_cursor_key_app_mode v = Ok (vt_ckm v).
+Proof. exact tie_vt_cursor_key_app_mode. Qed.
+Check C19_source_ckm : forall v, g_vt_cursor_key_app_mode v = Ok (vt_ckm v).
+Print Assumptions C19_source_ckm.
+
